@@ -88,7 +88,7 @@ Definition outcomes_agree (st : state) (h : hobs) : bool :=
 Definition escaped (st : state) : bool :=
   existsb (fun p => match snd p with Disp EvEscape => true | _ => false end) (log st).
 
-Inductive hview := VHFull | VH02 | VH03 | VH04.
+Inductive hview := VHFull | VH02 | VH03 | VH04 | VH05.
 
 Definition hagree (v : hview) (h : hcase) : bool :=
   let st := model_run h in
@@ -110,6 +110,9 @@ Definition hagree (v : hview) (h : hcase) : bool :=
                  (writes_of st) (ho_writes o)
       && Bool.eqb (match holder st with Some _ => true | None => false end) (ho_locked o)
       && list_agree (fun m x => Nat.eqb (fst m) (fst x)) (sort_by_key (done_callers st)) (ho_outcomes o)
+  | VH05 =>
+      (* how each call() ended: the result handed back or the error raised *)
+      outcomes_agree st o
   | VH04 =>
       (* which CALLs are written, when, with which payload *)
       list_agree write_agree (filter is_call_write (writes_of st)) (filter is_call_frame (ho_writes o))
